@@ -39,6 +39,11 @@ func (b *builder) add(s Step) bool {
 				return false
 			}
 		}
+		if s.Alt > 0 { // the identity of meter key Alt-1 with different attributes: a distinct meter under the fresh key Arg
+			if !b.anyMeter[s.Alt-1] || b.anyMeter[s.Arg] || s.Same > 0 {
+				return false
+			}
+		}
 		b.anyMeter[s.Arg] = true
 		if b.installed == 0 {
 			b.globalMeter[s.Arg] = true
@@ -123,6 +128,15 @@ func (b *builder) add(s Step) bool {
 				ok = ok || t == s.Same
 			}
 			if !ok {
+				return false
+			}
+		}
+		if s.Alt > 0 {
+			ok := false
+			for _, t := range b.tracers {
+				ok = ok || t == s.Alt
+			}
+			if !ok || s.Same > 0 {
 				return false
 			}
 		}
@@ -308,6 +322,8 @@ func seqCorpus() [][]Step {
 		b.add(Step{Op: opTracer, Opt: v&1 == 1, Via: v >> 1 & 1}) // 2
 		b.add(Step{Op: opTracer, Same: 2})                        // 3: the same tracer again
 		b.add(Step{Op: opTracer, Opt: v&1 == 0})                  // 4
+		b.add(Step{Op: opTracer, Alt: 2})                         // 5: tracer 2 with different attributes only
+		b.add(Step{Op: opTracer, Alt: 4, Via: v >> 1 & 1})        // 6
 		b.add(Step{Op: opSpan, Arg: 2})
 		if v&4 != 0 {
 			b.add(Step{Op: opErrH})
@@ -325,10 +341,13 @@ func seqCorpus() [][]Step {
 		b := newBuilder()
 		b.add(Step{Op: opMeter, Arg: 0, Opt: v&1 == 1, Via: v >> 1})
 		b.add(Step{Op: opMeter, Arg: 5, Same: 1}) // meter 0 again, kept as key 5
+		b.add(Step{Op: opMeter, Arg: 7, Alt: 1})  // meter 0 with different attributes only: a distinct meter
+		b.add(Step{Op: opInst, Arg: 7, Kind: v})
+		b.add(Step{Op: opInst, Arg: 7, Kind: 10 + v%4, CB: true})
 		b.add(Step{Op: opInst, Arg: 0, Kind: 2 + v})
 		b.add(Step{Op: opInst, Arg: 5, Kind: 4 + v})
 		b.add(Step{Op: opInst, Arg: 5, Kind: 8 + v, CB: true})
-		b.add(Step{Op: opRegister, Arg: 5, Obs: []int{4}})
+		b.add(Step{Op: opRegister, Arg: 5, Obs: []int{len(b.steps) - 1}})
 		b.add(Step{Op: opInstall, Prov: v & 1})
 		b.add(Step{Op: opMeter, Arg: 6, Same: 1, Via: 1})
 		out = append(out, b.finish())
@@ -377,7 +396,9 @@ func randomProgram(r *vgen.Rand) []Step {
 		}
 		switch r.Intn(20) {
 		case 0, 1:
-			if r.Chance(1, 4) {
+			if r.Chance(1, 6) {
+				b.add(Step{Op: opMeter, Arg: 3 + r.Intn(4), Alt: 1 + r.Intn(3), Via: r.Intn(2)})
+			} else if r.Chance(1, 4) {
 				b.add(Step{Op: opMeter, Arg: 3 + r.Intn(4), Same: 1 + r.Intn(3), Via: r.Intn(2)})
 			} else {
 				b.add(Step{Op: opMeter, Arg: r.Intn(3), Opt: r.Bool(), Via: r.Intn(2)})
@@ -423,7 +444,9 @@ func randomProgram(r *vgen.Rand) []Step {
 				}
 			}
 		case 16:
-			if len(b.tracers) > 0 && r.Chance(1, 3) {
+			if len(b.tracers) > 0 && r.Chance(1, 5) {
+				b.add(Step{Op: opTracer, Alt: vgen.Pick(r, b.tracers), Via: r.Intn(2)})
+			} else if len(b.tracers) > 0 && r.Chance(1, 3) {
 				b.add(Step{Op: opTracer, Same: vgen.Pick(r, b.tracers), Via: r.Intn(2)})
 			} else {
 				b.add(Step{Op: opTracer, Opt: r.Bool(), Via: r.Intn(2)})
